@@ -65,4 +65,322 @@ theorem lookup_insertSorted (v : Int) (cs : List (Int × Int)) (x : Int)
             simp [hcv]
           · simp [h]
 
+theorem insertSorted_keys' (v : Int) (cs : List (Int × Int)) (hs : (cs.map (·.1)).Pairwise (· < ·)) :
+    ((insertSorted v cs).map (·.1)).Pairwise (· < ·) := (insertSorted_keys v cs hs).1
+
+/-- `countValues` holds the exact number of occurrences of every value -/
+theorem lookup_countValues (l : List Int) (x : Int) : (lookup (countValues l) x).getD 0 = (l.count x : Int) := by
+  unfold countValues
+  have gen : ∀ (l : List Int) (acc : List (Int × Int)), (acc.map (·.1)).Pairwise (· < ·) →
+      (lookup (l.foldl (fun cs v => insertSorted v cs) acc) x).getD 0 = (lookup acc x).getD 0 + (l.count x : Int) := by
+    intro l
+    induction l with
+    | nil => intro acc _; simp
+    | cons v vs ih =>
+      intro acc hs
+      simp only [List.foldl_cons]
+      rw [ih _ (insertSorted_keys' v acc hs), lookup_insertSorted v acc x hs]
+      by_cases h : x = v
+      · subst h; simp [List.count_cons]; omega
+      · have : ¬ v = x := fun heq => h heq.symm
+        simp [h, List.count_cons, this]
+  have := gen l [] (by simp)
+  simpa [lookup] using this
+
+/-! ### counts of mapped values -/
+
+/-- generic counter fold: key `k a`, weight `w a` -/
+theorem fold_cadd_gen {α} (k : α → Int) (w : α → Int) (l : List α) (acc : List (Int × Int)) (hk : CKeys acc) :
+    CKeys (l.foldl (fun cs a => cadd cs (k a) (w a)) acc) ∧
+    (∀ v, (lookup (l.foldl (fun cs a => cadd cs (k a) (w a)) acc) v).getD 0 =
+      (lookup acc v).getD 0 + ((l.filter fun a => k a == v).map w).sum) ∧
+    (∀ v, lookup (l.foldl (fun cs a => cadd cs (k a) (w a)) acc) v = none →
+      lookup acc v = none ∧ ∀ a ∈ l, k a ≠ v) := by
+  induction l generalizing acc with
+  | nil => simp [hk]
+  | cons a rest ih =>
+    simp only [List.foldl_cons]
+    obtain ⟨g1, g3, g4⟩ := ih (cadd acc (k a) (w a)) (cadd_keys acc hk _ _)
+    refine ⟨g1, ?_, ?_⟩
+    · intro v
+      rw [g3 v, lookup_cadd]
+      by_cases hv : v = k a
+      · subst hv; simp [List.filter_cons]; omega
+      · have : ¬ k a = v := fun h => hv h.symm
+        simp [hv, this, List.filter_cons]
+    · intro v hnone
+      obtain ⟨h1, h2⟩ := g4 v hnone
+      rw [lookup_cadd] at h1
+      by_cases hv : v = k a
+      · simp [hv] at h1
+      · simp only [hv, if_false] at h1
+        refine ⟨h1, fun a' ha' => ?_⟩
+        rcases List.mem_cons.mp ha' with rfl | ha'
+        · exact fun h => hv h.symm
+        · exact h2 a' ha'
+
+/-- summing the counts of the distinct values that map to `mv` counts the mapped data -/
+theorem sum_counts_mapped (f : Int → Int) (mv : Int) (data : List Int) (keys : List Int) (hnd : keys.Nodup)
+    (hcover : ∀ v ∈ data, v ∈ keys) :
+    ((keys.filter fun v => f v == mv).map fun v => (data.count v : Int)).sum = ((data.map f).count mv : Int) := by
+  induction data with
+  | nil =>
+    simp only [List.count_nil, List.map_nil]
+    have : ∀ (l : List Int), (l.map fun _ => ((0 : Nat) : Int)).sum = ((0 : Nat) : Int) := by
+      intro l
+      induction l with
+      | nil => rfl
+      | cons a as ih => simp only [List.map_cons, List.sum_cons, ih]; rfl
+    exact this _
+  | cons d ds ih =>
+    have ih' := ih (fun v hv => hcover v (List.mem_cons_of_mem _ hv))
+    have hd : d ∈ keys := hcover d List.mem_cons_self
+    -- the counts of `d :: ds` differ from those of `ds` only at the key `d`
+    have key : ∀ (ks : List Int), ks.Nodup →
+        ((ks.filter fun v => f v == mv).map fun v => ((d :: ds).count v : Int)).sum =
+        ((ks.filter fun v => f v == mv).map fun v => (ds.count v : Int)).sum +
+          (if d ∈ ks ∧ f d = mv then 1 else 0) := by
+      intro ks
+      induction ks with
+      | nil => intro _; simp
+      | cons a as iha =>
+        intro hnd'
+        have hnd'' := List.nodup_cons.mp hnd'
+        simp only [List.filter_cons]
+        by_cases hfa : (f a == mv) = true
+        · simp only [hfa, if_true, List.map_cons, List.sum_cons]
+          rw [iha hnd''.2]
+          have hfa' : f a = mv := by simpa using hfa
+          by_cases hda : d = a
+          · subst hda
+            have : ¬ d ∈ as := hnd''.1
+            simp [List.count_cons, this, hfa']
+            omega
+          · have h1 : ¬ a = d := fun h => hda h.symm
+            simp [List.count_cons, hda, h1]
+            by_cases hdin : d ∈ as ∧ f d = mv
+            · simp [hdin]; omega
+            · have : ¬ ((d = a ∨ d ∈ as) ∧ f d = mv) := by
+                rintro ⟨h | h, h'⟩
+                · exact hda h
+                · exact hdin ⟨h, h'⟩
+              simp [hdin, hda]
+        · simp only [hfa, Bool.false_eq_true, if_false]
+          rw [iha hnd''.2]
+          have hfa' : ¬ f a = mv := by simpa using hfa
+          by_cases hda : d = a
+          · subst hda
+            have : ¬ d ∈ as := hnd''.1
+            simp [this, hfa']
+          · simp [hda]
+    rw [key keys hnd, ih']
+    simp only [List.map_cons, List.count_cons]
+    by_cases hfd : f d = mv
+    · simp [hd, hfd]
+    · simp [hfd]
+
+/-- the mapping applied to a raw value (the value itself when there is no mapping) -/
+def mapD (mapping : Option (List (Int × Int))) (v : Int) : Int :=
+  match mapVal mapping v with
+  | .ok x => x
+  | .error _ => v
+
+theorem finalFold_ok (mapping : Option (List (Int × Int))) (counts acc fc : List (Int × Int))
+    (h : counts.foldlM (finalStep mapping) acc = .ok fc) :
+    fc = counts.foldl (fun fc c => cadd fc (mapD mapping c.1) c.2) acc := by
+  induction counts generalizing acc with
+  | nil => simp only [List.foldlM_nil, pure, Except.pure, Except.ok.injEq] at h; rw [← h]; rfl
+  | cons c rest ih =>
+    rw [List.foldlM_cons] at h
+    unfold finalStep at h
+    cases hm : mapVal mapping c.1 with
+    | error e => simp [hm, bind, Except.bind] at h
+    | ok x =>
+      simp only [hm, bind, Except.bind, pure, Except.pure] at h
+      have := ih _ h
+      rw [this]
+      simp only [List.foldl_cons, mapD, hm]
+
+/-- what a successful `from_array` did to choose its common value -/
+theorem fromArray_common_inv (a : Arr) (o : FromOpts) (idx : IIndex) (w : Bool)
+    (h : fromArray a o = .ok (idx, w)) :
+    ∃ fc, finalCountsOf o.mapping (countsOf a o) = .ok fc ∧ pickCommon o fc = .ok idx.common := by
+  unfold fromArray at h
+  simp only [bind, Except.bind, pure, Except.pure] at h
+  split at h
+  · cases h
+  · split at h
+    · cases h
+    · rename_i fc hfc
+      split at h
+      · cases h
+      · rename_i cm hcm
+        split at h
+        · cases h
+        · rename_i w' _
+          refine ⟨fc, hfc, ?_⟩
+          cases w' with
+          | true =>
+            simp only [if_true] at h
+            split at h
+            · cases h
+            · cases h; exact hcm
+          | false =>
+            simp only [Bool.false_eq_true, if_false] at h
+            split at h
+            · cases h
+            · cases h; exact hcm
+
+/-- the first strict maximum of a counter carries a maximal count -/
+theorem firstMax_is_max (c : Int × Int) (rest : List (Int × Int)) :
+    let r := rest.foldl (fun (best : Int × Int) x => if x.2 > best.2 then x else best) c
+    r ∈ c :: rest ∧ ∀ x ∈ c :: rest, x.2 ≤ r.2 := by
+  induction rest generalizing c with
+  | nil => simp
+  | cons y ys ih =>
+    simp only [List.foldl_cons]
+    by_cases hy : y.2 > c.2
+    · simp only [hy, if_true]
+      obtain ⟨h1, h2⟩ := ih y
+      refine ⟨List.mem_cons_of_mem _ h1, fun x hx => ?_⟩
+      rcases List.mem_cons.mp hx with rfl | hx
+      · have := h2 y List.mem_cons_self; omega
+      · exact h2 x hx
+    · simp only [hy, if_false]
+      obtain ⟨h1, h2⟩ := ih c
+      refine ⟨?_, fun x hx => ?_⟩
+      · rcases List.mem_cons.mp h1 with h1 | h1
+        · rw [h1]; exact List.mem_cons_self
+        · exact List.mem_cons_of_mem _ (List.mem_cons_of_mem _ h1)
+      · rcases List.mem_cons.mp hx with rfl | hx
+        · exact h2 x List.mem_cons_self
+        · rcases List.mem_cons.mp hx with rfl | hx
+          · have := h2 c List.mem_cons_self; omega
+          · exact h2 x (List.mem_cons_of_mem _ hx)
+
+theorem mapD_none (v : Int) : mapD none v = v := by simp [mapD, mapVal, pure, Except.pure]
+
+/-- exact counts of the raw values: what `countsOf` returns -/
+structure ExactCounts (data : List Int) (counts : List (Int × Int)) : Prop where
+  nodup : (counts.map (·.1)).Nodup
+  cover : ∀ v ∈ data, v ∈ counts.map (·.1)
+  exact : ∀ p ∈ counts, p.2 = (data.count p.1 : Int)
+
+theorem countValues_exact (data : List Int) : ExactCounts data (countValues data) := by
+  obtain ⟨h1, h2⟩ := countValues_keys data
+  have hk : CKeys (countValues data) := by
+    have := h1.imp (fun {a b : Int} (h : a < b) => Int.ne_of_lt h)
+    exact (List.pairwise_map.mp this)
+  refine ⟨h1.imp (fun h => Int.ne_of_lt h), fun v hv => (h2 v).mpr hv, fun p hp => ?_⟩
+  have := lookup_of_mem (countValues data) hk p hp
+  have h3 := lookup_countValues data p.1
+  rw [this] at h3
+  simpa using h3
+
+theorem ckeys_of_nodup (counts : List (Int × Int)) (h : (counts.map (·.1)).Nodup) : CKeys counts :=
+  List.pairwise_map.mp h
+
+theorem sum_pairs_eq (f : Int → Int) (mv : Int) (data : List Int) (counts : List (Int × Int))
+    (hex : ∀ p ∈ counts, p.2 = (data.count p.1 : Int)) :
+    ((counts.filter fun c => f c.1 == mv).map (·.2)).sum =
+      (((counts.map (·.1)).filter fun v => f v == mv).map fun v => (data.count v : Int)).sum := by
+  induction counts with
+  | nil => rfl
+  | cons c rest ih =>
+    have ih' := ih (fun p hp => hex p (List.mem_cons_of_mem _ hp))
+    simp only [List.filter_cons, List.map_cons]
+    by_cases h : (f c.1 == mv) = true
+    · simp only [h, if_true, List.map_cons, List.sum_cons, ih', hex c List.mem_cons_self]
+    · simp only [h, Bool.false_eq_true, if_false, ih']
+
+/-- the counter of mapped values `from_array` builds is exact -/
+theorem finalCounts_exact (mapping : Option (List (Int × Int))) (data : List Int) (counts fc : List (Int × Int))
+    (hx : ExactCounts data counts) (h : finalCountsOf mapping counts = .ok fc) :
+    CKeys fc ∧ (∀ p ∈ fc, p.2 = ((data.map (mapD mapping)).count p.1 : Int)) ∧
+      (∀ x, (∀ p ∈ fc, p.1 ≠ x) → (data.map (mapD mapping)).count x = 0) ∧ (data ≠ [] → fc ≠ []) := by
+  have hgen : CKeys (counts.foldl (fun fc c => cadd fc (mapD mapping c.1) c.2) []) ∧
+      (∀ v, (lookup (counts.foldl (fun fc c => cadd fc (mapD mapping c.1) c.2) []) v).getD 0 =
+        ((data.map (mapD mapping)).count v : Int)) ∧
+      (∀ v, lookup (counts.foldl (fun fc c => cadd fc (mapD mapping c.1) c.2) []) v = none →
+        ∀ c ∈ counts, mapD mapping c.1 ≠ v) := by
+    obtain ⟨g1, g2, g3⟩ := fold_cadd_gen (fun c : Int × Int => mapD mapping c.1) (fun c => c.2) counts [] List.Pairwise.nil
+    refine ⟨g1, fun v => ?_, fun v hv => (g3 v hv).2⟩
+    rw [g2 v, sum_pairs_eq (mapD mapping) v data counts hx.exact,
+      sum_counts_mapped (mapD mapping) v data (counts.map (·.1)) hx.nodup hx.cover]
+    simp [lookup]
+  -- the counter the code builds equals that fold (with no mapping the fold re-inserts the exact counts)
+  have hfc : fc = counts.foldl (fun fc c => cadd fc (mapD mapping c.1) c.2) [] ∨
+      (mapping = none ∧ fc = counts) := by
+    unfold finalCountsOf at h
+    cases mapping with
+    | none => simp only [pure, Except.pure, Except.ok.injEq] at h; exact Or.inr ⟨rfl, h.symm⟩
+    | some m => exact Or.inl (finalFold_ok (some m) counts [] fc h)
+  rcases hfc with hfc | ⟨hm, hfc⟩
+  · obtain ⟨g1, g2, g3⟩ := hgen
+    rw [hfc]
+    refine ⟨g1, fun p hp => ?_, fun x hx' => ?_, fun hne => ?_⟩
+    · have := lookup_of_mem _ g1 p hp
+      have h2 := g2 p.1
+      rw [this] at h2
+      simpa using h2
+    · cases hl : lookup (counts.foldl (fun fc c => cadd fc (mapD mapping c.1) c.2) []) x with
+      | some n => exact absurd rfl (hx' _ (mem_of_lookup _ x n hl))
+      | none =>
+        have := g2 x
+        rw [hl] at this
+        simp at this
+        omega
+    · obtain ⟨d, hd⟩ := List.exists_mem_of_ne_nil data hne
+      intro hnil
+      have := g2 (mapD mapping d)
+      rw [hnil] at this
+      have hpos : 0 < (data.map (mapD mapping)).count (mapD mapping d) :=
+        List.count_pos_iff.mpr (List.mem_map.mpr ⟨d, hd, rfl⟩)
+      simp [lookup] at this
+      omega
+  · subst hm
+    rw [hfc]
+    have hmap : data.map (mapD none) = data := by
+      rw [List.map_congr_left (fun v _ => mapD_none v)]; simp
+    rw [hmap]
+    refine ⟨ckeys_of_nodup counts hx.nodup, hx.exact, fun x hx' => ?_, fun hne => ?_⟩
+    · apply List.count_eq_zero.mpr
+      intro hin
+      obtain ⟨p, hp, hpx⟩ := List.mem_map.mp (hx.cover x hin)
+      exact hx' p hp hpx
+    · obtain ⟨d, hd⟩ := List.exists_mem_of_ne_nil data hne
+      intro hnil
+      have := hx.cover d hd
+      rw [hnil] at this; simp at this
+
+/-- **the common value `from_array` picks when none is given occurs, among the (mapped) values of the array, at least
+as often as every other value** — counts computed by the library or supplied exactly by the caller -/
+theorem fromArray_common_most_frequent (a : Arr) (o : FromOpts) (idx : IIndex) (w : Bool)
+    (h : fromArray a o = .ok (idx, w)) (hc : o.common = none) (hne : a.data ≠ [])
+    (hcounts : ∀ c, o.counts = some c → ExactCounts a.data c) (u : Int) :
+    (a.data.map (mapD o.mapping)).count u ≤ (a.data.map (mapD o.mapping)).count idx.common := by
+  obtain ⟨fc, hfc, hpick⟩ := fromArray_common_inv a o idx w h
+  have hx : ExactCounts a.data (countsOf a o) := by
+    unfold countsOf
+    cases hco : o.counts with
+    | some c => exact hcounts c hco
+    | none => exact countValues_exact a.data
+  obtain ⟨hk, hex, hzero, hnonempty⟩ := finalCounts_exact o.mapping a.data (countsOf a o) fc hx hfc
+  unfold pickCommon at hpick
+  rw [hc] at hpick
+  match fc, hnonempty hne with
+  | c :: rest, _ =>
+    simp only [pure, Except.pure, Except.ok.injEq] at hpick
+    obtain ⟨hmem, hmax⟩ := firstMax_is_max c rest
+    have hcn := hex _ hmem
+    rw [hpick] at hcn
+    by_cases hu : ∃ p ∈ c :: rest, p.1 = u
+    · obtain ⟨p, hp, hpu⟩ := hu
+      have h1 := hex p hp
+      have h2 := hmax p hp
+      rw [hpu] at h1
+      omega
+    · have := hzero u (fun p hp hpu => hu ⟨p, hp, hpu⟩)
+      omega
+
 end Catii.IIdx
